@@ -13,8 +13,8 @@ def optstr(I, name):
 
 def mk_logsource(I, tag):
     L = I.E.index.lookup("sigma.rule.logsource:SigmaLogSource")
-    f = {k: optstr(I, f"{tag}.{k}") for k in ("category", "product", "service")}
-    f.update(definition=None, source=None, custom_attributes=None)
+    f = {k: optstr(I, f"{tag}.{k}") for k in ("category", "product", "service", "definition")}      # the free-text definition never matters for covering
+    f.update(source=None, custom_attributes=None)
     return SObj(L, f)
 
 
